@@ -143,6 +143,11 @@ def build(t):
         return ops.Transpose(ch[0])
     if k == "Adjoint":
         return ops.Adjoint(ch[0])
+    if k in ("GramWinH", "GramWinT"):
+        A = ch[0]
+        h = A.shape[0] // 2
+        S1, S2 = A[0:h], A[h:2 * h]      # two different windows of the very same object
+        return ops.Product(ops.Adjoint(S1) if k == "GramWinH" else ops.Transpose(S1), S2)
     if k == "SelfProd":
         return ops.Product(ch[0], ch[0])     # the very same object twice
     if k in ("GramT", "GramH", "GramHr"):
